@@ -384,7 +384,13 @@ func c11BodyT(trust, c1, c2 string, midHandshake bool, reconnect bool) func() {
 			if has {
 				if sc, ok := c.(api.ShipConnectionInterface); ok {
 					if closed, _ := sc.DataHandler().IsDataConnectionClosed(); closed {
-						simrt.Fail("C11|closed-connection-still-registered", "hub %s still has a connection registered whose transport is closed (causes %s,%s)", n.Name, c1, c2)
+						stuck := ""
+						for _, t := range simrt.Threads() {
+							if !t.Done && (strings.HasPrefix(t.Name, "cause") || strings.Contains(t.Name, "CloseConnection")) {
+								stuck += fmt.Sprintf(" [%s blocked in %s %s]", t.Name, t.OpKind, t.OpObj)
+							}
+						}
+						simrt.Fail("C11|closed-connection-still-registered", "hub %s still has a connection registered whose transport is closed (causes %s,%s)%s", n.Name, c1, c2, stuck)
 					}
 				}
 			}
@@ -436,6 +442,15 @@ func c11Scenarios(r *hx.Run) []hx.Scenario {
 	}
 	for _, c := range []string{"unregisterA", "unregisterB"} {
 		out = append(out, hx.Scenario{Name: "c11:midhandshake:" + c, Body: c11Body(c, "", true, false), Bounds: simrt.B(pb, 0, 0), Cfg: c11cfg})
+	}
+	// a local close racing with the transport failure of the same connection: one preemption between the closing
+	// thread and the read pump that notices the failure (both tiers)
+	for i, p := range [][2]string{{"disconnectA", "cutLink"}, {"unregisterA", "cutLink"}, {"shutdownA", "cutLink"}, {"disconnectA", "peerEOF"}} {
+		if i >= 2 && !r.Thorough() {
+			continue
+		}
+		out = append(out, hx.Scenario{Name: "c11:race:" + p[0] + "+" + p[1], Body: c11Body(p[0], p[1], false, false), Bounds: simrt.B(1, 0, 0),
+			Cfg: simrt.Config{MaxSteps: 200000, BranchAfterMark: true, BranchOnly: []string{"cause", "readShipPump"}}})
 	}
 	for _, c := range []string{"disconnectA", "cutLink", "peerEOF"} {
 		out = append(out, hx.Scenario{Name: "c11:reconnect:" + c, Body: c11Body(c, "", false, true), Bounds: simrt.B(0, 0, 0),
